@@ -67,7 +67,9 @@ func CidFromToken(tok string) cid.Cid {
 	if err != nil {
 		panic(err)
 	}
-	return cid.NewCidV1(cid.Raw, h)
+	// dag-cbor, as the real entry / manifest CIDs are (the interpreter's tokens carry the
+	// same codec prefix): a raw-codec CID with the same digest is an ALIAS, not the same CID
+	return cid.NewCidV1(cid.DagCBOR, h)
 }
 
 // BlockKey is the key under which a block store holds the block addressed by c:
